@@ -4,7 +4,7 @@ import itertools
 PROPERTY = 'C12'
 LEVEL = 'exploration'
 TIMEOUT_S = 900
-RULE = ('(n_theta,n_r) in {(8,6),(9,7)} x spline bases (uniform-cubic fast path, general path with non-uniform theta breaks) x potentials {constant, omega*r^2/2, '
+RULE = ('(n_theta,n_r) in {(8,6),(9,7)} x spline bases (uniform-cubic fast path, general path with non-uniform theta breaks) x potentials {constant, omega*r^2/2, vortex localised in theta, '
         'mode a*r*cos(theta), dense smooth, strongly sheared (non-contractive for the implicit scheme)} x dt in {0, +-0.1, +-1, +-5} x v in {0, +-2} x '
         'boundary mode (fEq / null) x time scheme (explicit Heun / implicit trapezoid); data f = zero (isolates the boundary fill), dense, every unit impulse '
         '(selected configurations); oracle = independent implementation of the stated Heun / clipped fixed-point scheme with exact-rational interpolation '
@@ -22,9 +22,9 @@ def cases(tier, seed):
     out = []
     sizes = [(8, 6), (9, 7)]
     bases = ['cu', 'nu'] if tier == 'quick' else ['cu', 'nu', 'nu24']
-    pots = ['const', 'rot', 'mode', 'dense']
+    pots = ['const', 'rot', 'mode', 'dense', 'vortex']
     for (nq, nr), basis, pot, nul, expl in itertools.product(sizes, bases, pots, (False, True), (True, False)):
-        if tier == 'quick' and (nq, nr) == (9, 7) and basis == 'nu' and pot in ('const', 'dense'):
+        if tier == 'quick' and (nq, nr) == (9, 7) and basis == 'nu' and pot in ('const', 'dense', 'vortex'):
             continue
         out.append({'kind': 'step', 'nq': nq, 'nr': nr, 'basis': basis, 'pot': pot, 'nul': nul, 'explicit': expl, 'tier': tier, 'cost': 50 if expl else 200})
     for basis in ('cu', 'nu'):
@@ -70,6 +70,10 @@ def _potential(name, Q, R, c, amp=None):
         return 0.5 * R * np.cos(Q) * np.sin(0.2 * R)
     if name == 'dense':
         return 0.01 * np.sin(2 * Q + 0.3) * (R - rmin) * np.exp(-0.1 * R) + 0.02 * R ** 2 + 0.05 * R * np.sin(Q) * np.cos(0.3 * R)
+    if name == 'vortex':
+        # drift concentrated around theta = pi: almost no motion on the last theta rows, so a convergence test that
+        # looks at part of the grid only stops the implicit iteration too early
+        return 0.25 * np.exp(-((Q - np.pi) ** 2) / 0.4) * (R - rmin) * (c.rMax - R) / 10.0
     if name == 'shear':
         return amp * np.cos(2 * Q) * (R - rmin)
     raise KeyError(name)
@@ -179,7 +183,7 @@ def _run_step(case):
     evals = nontriv = skipped = 0
     worst = 0.0
     dts = (0.0, 0.1, -0.1, 1.0, -1.0, 5.0, -5.0)
-    if not case['explicit'] and case['pot'] in ('mode', 'dense'):
+    if not case['explicit'] and case['pot'] in ('mode', 'dense', 'vortex'):
         # keep the fixed-point map contractive (dt*Lip(v) < 2); the non-contractive regime is the subject of kind=terminate
         dts = (0.0, 0.1, -0.1, 0.4, -0.4)
     for dt in dts:
